@@ -377,7 +377,9 @@ def extra_checks(prop, tier, seed, workdir, drive, build=None):
                  "s2.ndjson": ["replay", "-in", os.path.join(workdir, "s2-histories.json")]}
         merged = os.path.join(workdir, "replicas.ndjson")
         from concurrent.futures import ThreadPoolExecutor
-        jobs = [(r, name, args) for r in ("B", "C") for name, args in regen.items()]
+        # replica C executes the histories of each source in the opposite order: nothing (a package-level
+        # cache, a counter) may carry over from one history to the next within a process
+        jobs = [(r, name, args + (["-reverse"] if r == "C" else [])) for r in ("B", "C") for name, args in regen.items()]
         with ThreadPoolExecutor(max_workers=6) as ex:
             list(ex.map(lambda j: drive(j[2] + ["-out", os.path.join(workdir, "det-%s-%s" % (j[0], j[1]))]), jobs))
         logs = {}
@@ -385,9 +387,16 @@ def extra_checks(prop, tier, seed, workdir, drive, build=None):
             logs[r] = []
             for name in regen:
                 src = os.path.join(workdir, name if r == "A" else "det-%s-%s" % (r, name))
+                hists = []
                 for line in open(src):
                     d = json.loads(line)
-                    logs[r].append((d["ev"]["name"] + ("" if d["ev"]["ok"] else "/rejected"), d["dg"]))
+                    if d["ev"]["name"] == "reset":
+                        hists.append([])
+                    hists[-1].append((d["ev"]["name"] + ("" if d["ev"]["ok"] else "/rejected"), d["dg"]))
+                if r == "C":
+                    hists.reverse()
+                for h in hists:
+                    logs[r].extend(h)
         n = max(len(v) for v in logs.values())
         with open(merged, "w") as out:
             for k in range(n):
@@ -399,7 +408,7 @@ def extra_checks(prop, tier, seed, workdir, drive, build=None):
         if "is violated" not in o and (not m or int(m.group(1)) != n):
             raise RuntimeError("Replicas did not consume the merged log:\n" + o[-3000:])
         res = {"evaluations": 3 * n, "distinct_nontrivial": 3,
-               "rule": "Determinism: every history of every source executed by three separate processes; TLC checks on the merged "
+               "rule": "Determinism: every history of every source executed by three separate processes (the third in the opposite order of histories); TLC checks on the merged "
                        "log (Replicas.tla) that equal applied prefixes give equal digests of the raw store, balances and supply.",
                "replicas": 3, "samples": [{"replica_log_lines": n}]}
         if "is violated" in o:
